@@ -1,12 +1,14 @@
-(* C19 — generated files are ordered before their users (downloads are not modelled).
+(* C19 — generated files and downloads are ordered before their users.
    Theorems on the mechanisms: build order, union of exported build-dep files, global build
    deps; the composition into the `|` sections is exercised by the byte-exact correspondence.
-   Proofs: proofs/OrderFacts.v, proofs/StmtFacts.v. *)
+   The download clause is a theorem about every configured build (proofs/DownloadOrder.v).
+   Proofs: proofs/OrderFacts.v, proofs/StmtFacts.v, proofs/DownloadOrder.v. *)
 From Coq Require Import Ascii String List NArith.
 Import ListNotations.
 Require Import Laze.model.Base Laze.model.Env Laze.model.Allow Laze.model.Ninja Laze.model.Ctx
         Laze.model.Resolver Laze.model.Imports Laze.model.Generate
-        Laze.proofs.StmtFacts Laze.proofs.OrderFacts.
+        Laze.model.Expand Laze.model.Path Laze.model.Load
+        Laze.proofs.StmtFacts Laze.proofs.OrderFacts Laze.proofs.DownloadOrder.
 Open Scope list_scope.
 
 (* every build-dep module precedes its users in the build order (so its exported files are
@@ -35,3 +37,71 @@ Definition gcyc := fold_left (fun g nd => g_register_dependency g (fst nd) (snd 
   [(S_ "a", S_ "b"); (S_ "b", S_ "a"); ([], S_ "a"); ([], S_ "b")] g_empty.
 Example C19_ex_cycle : dependencies_of gcyc [] = None.
 Proof. vm_compute. reflexivity. Qed.
+
+(* --- downloads --- *)
+(* In the statements of every configured build: the modules are visited in the build order of the
+   build info (C19_order_topological: build deps first). A module at any position, with [pre]
+   visited before it, has for EACH of its sources either `build <source>: phony || <its own
+   build-dep files>` or — having none and not downloading itself — `build <source>: phony <tag file>`
+   for the download directory, registered by a module of [pre], that contains its source directory. *)
+Theorem C19_download_order : forall H EV b le builder binary select disable cli_env info entries,
+  configure_build H EV b le builder binary select disable cli_env = Ok (Built info entries) ->
+  exists (in_order : list (module * env * option (list module))) merge_opts ms,
+    map (fun mm => m_name (fst (fst mm))) in_order = bi_build_order info /\
+    forall pre m menv mdeps post srcdir,
+      in_order = pre ++ (m, menv, mdeps) :: post -> m_srcdir m = Some srcdir -> m_build m = None ->
+      exists flat, flatten_with_opts_option merge_opts menv = Ok flat /\
+        forall source, In source (all_sources m ms) ->
+          exists srcpath, expand_eval EV flat PEmpty (path_push srcdir source) = Ok srcpath /\
+            (forall ld, m_build_dep_files m = Some ld ->
+                        In (show_stmt (phony_after srcpath None (Some (sort_paths ld)))) (map show_stmt entries)) /\
+            (forall sx tf, m_build_dep_files m = None -> m_download m = None ->
+                           expand_eval EV flat PIgnore srcdir = Ok sx -> containing_path (dldirs_of pre) sx = Some tf ->
+                           In (show_stmt (phony_after srcpath (Some [tf]) None)) (map show_stmt entries)).
+Proof. exact configured_build_download_order. Qed.
+Print Assumptions C19_download_order.
+
+(* the table of download directories: a step of the module loop adds the source directory and tag
+   file of a downloading module and nothing else; statements are only added *)
+Theorem C19_download_table : forall H EV rules merge_opts ms gdeps objdir bn an st m menv mdeps st',
+  module_step H EV rules merge_opts ms gdeps objdir bn an st (m, menv, mdeps) = Ok st' ->
+  (exists t, ls_entries st' = ls_entries st ++ t) /\
+  ls_dldirs st' = match m_srcdir m, m_download m with
+                  | Some srcdir, Some d => ainsert srcdir (dl_tagfile d srcdir) (ls_dldirs st)
+                  | _, _ => ls_dldirs st end.
+Proof.
+  intros H EV rules merge_opts ms gdeps objdir bn an st m menv mdeps st' HS.
+  destruct (module_step_download H EV _ _ _ _ _ _ _ _ _ _ _ _ HS) as (X & D & _). split; [exact X|exact D].
+Qed.
+Print Assumptions C19_download_table.
+
+(* a registered directory that contains the path is found, and what is found contains the path *)
+Theorem C19_download_dir_found : forall dirs p k v,
+  In (k, v) dirs -> path_starts_with p k = true -> containing_path dirs p <> None.
+Proof. exact containing_path_some. Qed.
+Theorem C19_download_dir_sound : forall dirs p tf,
+  containing_path dirs p = Some tf ->
+  exists k, In (k, tf) dirs /\ (path_eq k p = true \/ path_starts_with p k = true).
+Proof. exact containing_path_sound. Qed.
+Print Assumptions C19_download_dir_found.
+Print Assumptions C19_download_dir_sound.
+
+(* the loader: a module with `download:` is a build dependency, exports the tag file of its download
+   directory among its own build-dep files (so by C19_download_order each of ITS sources waits for
+   it, and so does every module that imports it), and has that directory as source directory *)
+Theorem C19_downloader_waits : forall build_dir y context is_binary filename defaults m d,
+  convert_module build_dir y context is_binary filename defaults = Ok m -> ym_download y = Some d ->
+  let m0 := init_module (ym_name y) context is_binary filename defaults in
+  let dir := dl_srcdir build_dir d (odflt [ch_dot] (m_relpath m0)) (m_name m0) in
+  m_download m = Some d /\ m_is_build_dep m = true /\
+  (exists ld, m_build_dep_files m = Some ld /\ In (dl_tagfile d dir) ld) /\
+  (ym_srcdir y = None -> m_srcdir m = Some dir).
+Proof. exact convert_module_download. Qed.
+Print Assumptions C19_downloader_waits.
+
+(* containment is by path component: the stored directory carries a "./" the user's spelling lacks *)
+Example C19_ex_containing :
+  containing_path [(S_ "build/dl/./ext", S_ "build/dl/./ext/.laze-downloaded")] (S_ "build/dl/ext/src/core")
+  = Some (S_ "build/dl/./ext/.laze-downloaded")
+  /\ containing_path [(S_ "build/dl/./ext", S_ "t")] (S_ "build/dl/extra") = None.
+Proof. vm_compute. split; reflexivity. Qed.
